@@ -87,6 +87,8 @@ def fx_of(case):
 # abstract <-> concrete
 # ---------------------------------------------------------------------------------------------------
 def concretize_outcome(kind, rnd, fx, fmt):
+    if isinstance(kind, dict):
+        return dict(kind)
     if kind in BODY:
         return {"k": "body", "c": kind, "hdr": rnd.random() < 0.7}
     if kind == "http":
@@ -198,6 +200,10 @@ def resolve_crash(crash, ev):
     return [{"kind": crash["kind"], "event": k}]
 
 
+class Irreproducible(tlc.MachineryError):
+    pass
+
+
 def crashed_chain(case, ev, crash, sandbox):
     """Chain B: run 1 crashed at the crash['event']-th observed call, then a second run."""
     fx = fx_of(case)
@@ -206,8 +212,8 @@ def crashed_chain(case, ev, crash, sandbox):
     d = os.path.join(sandbox, "dir")
     cf.materialize(fx, d, init, p)
     rc = cf.run_once(fx, d, p, script, crash=crash, workdir=sandbox)
-    if crash["kind"] == "intr" and [cf.core(s) for s, _ in rc["events"][:k]] != [cf.core(s) for s, _ in ev[:k]]:
-        raise tlc.MachineryError("run is not reproducible: observed calls differ between two executions of case %s" % case["id"])
+    if [(cf.core(s), n) for s, n in rc["events"][:k]] != [(cf.core(s), n) for s, n in ev[:k]]:
+        raise Irreproducible("run is not reproducible: observed calls differ between two executions of case %s" % case["id"])
     nreq1 = ev[k - 1][1]
     rc["nreq"] = nreq1
     recc = _run_record(p, script, rc, {"kind": crash["kind"], "seg": _seg_of(ev, k)}, ev[:k])
@@ -333,6 +339,10 @@ DIRECTED = [
     ("killed-table-build-short-body", "none", "none", False, False, {}, ["Th"], {"kind": "kill", "match": {"off": "part", "newer": True}}),
     ("tar-mtime-stale-table", "tar.gz", "none", True, True, {"doc": "other", "arch": "G", "off": "O", "newer": True}, [], None),
     ("retries-exhausted", "none", "none", True, False, {}, ["proto"] * 11, None),
+    # a well-formed response (Content-Length == body length) that is not the declared file: must never get the final name
+    ("short-body-matching-header-declared", "gz", "none", True, True, {}, [{"k": "body", "c": "Th", "hdr": True}, "G"], None),
+    ("junk-200-declared-uncompressed", "none", "none", True, False, {"tmp": "stale"}, [{"k": "body", "c": "J", "hdr": True}], None),
+    ("short-body-no-header-declared", "zip", "none", False, True, {}, [{"k": "body", "c": "Te", "hdr": False}], None),
     # \r\n line ends: the table is built through a text-mode reader (universal newlines), the readers use bytes
     ("crlf-fresh-download", "gz", "none", True, True, {}, ["G"], None, "crlf"),
     ("crlf-uncompressed-stale-table", "none", "none", True, False, {"doc": "full", "off": "O", "newer": False}, [], None, "crlf"),
@@ -373,6 +383,12 @@ def _signature(clauses, item, run_idx):
     """Kind of failing input (for known-findings matching): which defect, by which cause."""
     r = item["runs"][run_idx]
     sig = {"clauses": sorted(clauses)}
+    if "NoPartialFinal" in clauses:
+        sig["defect"] = "partial-or-unverified-file-under-final-name"
+        sig["seen"] = "/".join(r["tgt"])
+    if "ExplicitEnd" in clauses:
+        sig["defect"] = "no-explicit-end"
+        sig["end"] = r["end"]
     if "ReturnedOK" in clauses:
         fs = r["fs"]
         rebuilt = len(cf.dedupe([t["off"] for t in r["traj"]])) > 1  # this run wrote the offset table itself
@@ -422,7 +438,15 @@ def run_cases(cases, out, label, sandbox):
         if case.get("crash") and not crashes:
             unreal += 1
         for cr in crashes:
-            item, det = crashed_chain(case, ev, cr, sandbox)
+            try:
+                item, det = crashed_chain(case, ev, cr, sandbox)
+            except Irreproducible:
+                out.extra["reexecuted_after_differing_observation"] = out.extra.get("reexecuted_after_differing_observation", 0) + 1
+                # once more against a fresh uncrashed execution (anything that happens in the first execution of a process
+                # only); a second disagreement is a machinery failure
+                _, ev, _ = dry_chain(case, sandbox)
+                cr = (resolve_crash(case.get("crash"), ev) or [cr])[0] if not case["crash"].get("sweep") else cr
+                item, det = crashed_chain(case, ev, cr, sandbox)
             items.append(item)
             index[item["id"]] = (dict(case, crash=cr), det)
             out.add_case({"p": _p(case["p"]), "eol": case["p"].get("eol", "lf"), "init": case["init"], "script": case["script"], "crash": cr}, nontrivial=True)
@@ -454,7 +478,7 @@ def run_cases(cases, out, label, sandbox):
                 ",".join(clauses),
                 case,
                 signature=sig,
-                detail="[%s] %s run %d: %s" % (" ".join("%s=%s" % (k, sig[k]) for k in ("defect", "cause", "origin") if k in sig), tid, line, _explain(item, line - 1, det["runs"])),
+                detail="[%s] %s run %d: %s" % (" ".join("%s=%s" % (k, sig[k]) for k in ("defect", "cause", "origin", "seen", "end", "eol") if k in sig), tid, line, _explain(item, line - 1, det["runs"])),
             )
         )
     for tid, lines in verdicts.l2.items():
